@@ -281,7 +281,7 @@ def load_known():
     if os.path.exists(path):
         for line in open(path):
             line = line.strip()
-            if line and not line.startswith("#"):
+            if line and not line.startswith("#") and not line.startswith("fixed:"):
                 out.append(json.loads(line))
     return out
 
@@ -486,6 +486,9 @@ def normalize_model_rec(r):
     r.setdefault("cons_kind", "edge")
     r.setdefault("opt", {})
     r.setdefault("faults", {})
+    r.setdefault("expect_solved", False)
+    r.setdefault("proutes", [])
+    r.setdefault("pweights", [])
     # TLC cannot read JSON null / floats: make sure none slipped through
     def chk(x, path="$"):
         if x is None:
